@@ -432,6 +432,28 @@ instance (st0 st : St) : Decidable (Exited st0 st) :=
 abbrev runChunk := Ev.enter 0 0 (.koto 0)
 abbrev callFunction (nargs : Nat) (c : Callee) := Ev.enter 1 nargs c
 
+/-! ## Generator VMs
+
+A generator runs in its own `KotoVm` (`call_generator`: `spawn_shared_vm` + `push_frame`, state
+`Suspended`), i.e. in a separate instance of this model whose bottom frame has **no** execution
+barrier. One resumption is `continue_running`: if the call stack is empty the generator is finished
+(`Return(Null)`), otherwise `execute_instructions()?` runs until the next `Yield` (the trace simply
+ends, frames stay), until the bottom frame returns, or until an error escapes — then
+`pop_call_stack_on_error` has popped every frame (there is no barrier to stop at) and nothing else is
+undone. The pending Rust caller is modelled as `loop propagate` (its `pop_frame` on the error path is
+a no-op on the empty call stack). -/
+
+/-- the state of a freshly created generator VM: one frame without barrier -/
+def genInit (args : Nat) : VM :=
+  { regs := 1 + args, stack := [{ base := 0 }] }
+
+/-- `continue_running` reports the end of the iteration without running anything -/
+def genFinished (vm : VM) : Bool := vm.stack.isEmpty
+
+/-- one resumption of a generator VM with the events `evs` -/
+def genResume (evs : List Ev) (vm : VM) : St :=
+  if genFinished vm then ⟨vm, []⟩ else runUntil 0 evs ⟨vm, [.loop .propagate]⟩
+
 /-- What hook H1 reports: `(registers.len, call_stack.len, sequence_builders.len,
 string_builders.len, register_base)`. -/
 def snapshot (vm : VM) : Nat × Nat × Nat × Nat × Nat :=
